@@ -151,24 +151,30 @@ def run(ctx):
     # flag combination x tall / wide / threshold shapes: query -> call with the queried length -> call with
     # the documented minimum; and the mat factorizations that size their workspaces by such queries
     def r2_query():
-        qs = [1, 2, 3, 32, 33, 65, 129, 160, 300] if thorough else [1, 2, 3, 33, 65, 160, 300]
-        base = dict(QS=tset(qs), QGN=tset(qs if thorough else [1, 2, 3, 33, 65]), QK=tset([1, 3, 70, 200] if thorough else [1, 3, 70]),
-                    QLD=tset([0, 3] if thorough else [0]), CAP=90000 if thorough else 25600, EMIT="TRUE")
-        nsh = 4
-        def part(mode, sh, n, nm):
-            return lambda: ctx.gen("contract/LapackQuery.tla", "contract/LapackQuery.cfg", workers=1, timeout=2400, name=nm,
-                                   subst=dict(base, MODE=mode, SHARD=sh, NSHARDS=n))
-        parts = ctx.parallel([part("lapack", sh, nsh, "R2 gen LAPACK workspace-query grid %d/%d" % (sh + 1, nsh))
-                              for sh in range(nsh)] + [part("mat", 0, 1, "R2 gen mat factorization grid")], width=2)
-        both = os.path.join(ctx.work, "lapack-query.ndjson")
-        with open(both, "w") as fo:
-            for part in parts:
-                with open(part) as fi:
-                    for line in fi:
-                        fo.write(line)
-        # the workspace formulas do not depend on the kernels: quick runs the default build only
-        for bn, _ in (builds if thorough else builds[:1]):
-            summ = ctx.replay(bins[bn], "contract", both, ["build=" + bn], timeout=3000,
+        def grid(big, tag):
+            qs = [1, 2, 3, 32, 33, 65, 129, 160, 300] if big else [1, 2, 3, 33, 65, 160, 300]
+            base = dict(QS=tset(qs), QGN=tset(qs if big else [1, 2, 3, 33, 65]), QK=tset([1, 3, 70, 200] if big else [1, 3, 70]),
+                        QLD=tset([0, 3] if big else [0]), CAP=90000 if big else 25600, EMIT="TRUE")
+            nsh = 4
+
+            def part(mode, sh, n, nm):
+                return lambda: ctx.gen("contract/LapackQuery.tla", "contract/LapackQuery.cfg", workers=1, timeout=2400, name=nm,
+                                       subst=dict(base, MODE=mode, SHARD=sh, NSHARDS=n))
+            parts = ctx.parallel([part("lapack", sh, nsh, "R2 gen LAPACK workspace-query grid %s %d/%d" % (tag, sh + 1, nsh))
+                                  for sh in range(nsh)] + [part("mat", 0, 1, "R2 gen mat factorization grid " + tag)], width=2)
+            both = os.path.join(ctx.work, "lapack-query-%s.ndjson" % tag)
+            with open(both, "w") as fo:
+                for part_ in parts:
+                    with open(part_) as fi:
+                        for line in fi:
+                            fo.write(line)
+            return both
+        small = grid(False, "quick")
+        # the workspace formulas do not depend on the kernels: quick runs the default build only; thorough runs the
+        # large grid (dimensions up to 300 x 300, two strides) under the default build and the quick grid under the others
+        plan = [("default", grid(True, "thorough"))] + [(bn, small) for bn, _ in builds[1:]] if thorough else [("default", small)]
+        for bn, cases in plan:
+            summ = ctx.replay(bins[bn], "contract", cases, ["build=" + bn], timeout=3000,
                               name="R2 replay LAPACK workspace queries + mat factorizations [%s]" % bn)
             check_vacuity(ctx, summ, "workspace-query grid")
 
